@@ -68,7 +68,7 @@ CONSTANTS = {
                      TypePhases=INSTR_PHASES, DeepPhases=['setup', 'assert'], ExtraUsePhases=['act', 'cleanup'],
                      OrderPhases2=ALL_PHASES, OrderPhases3=ALL_PHASES, OrderPhases4=['setup', 'act', 'assert'],
                      BaseShapes=BASES, Link1Shapes=LINK1, Link2Shapes=LINK2, Link2Bases=BASES,
-                     ChainBases=BASES, ChainShapes=LINK1, Chain3Bases=DATA_BASES, Chain3Shapes=DATA_LINK1, Ctxs=CTXS),
+                     ChainBases=BASES, ChainShapes=LINK1, Chain3Bases=DATA_BASES, Chain3Shapes=QUICK_CHAIN, Ctxs=CTXS),
     # random behaviours beyond the exhaustive bound: TLC -simulate on the family "rand"
     'simulate': dict(Fams=['rand'], TypePhases=['setup'], DeepPhases=['setup'], ExtraUsePhases=[],
                      OrderPhases2=[], OrderPhases3=[], OrderPhases4=[], BaseShapes=BASES, Link1Shapes=LINK1,
